@@ -513,6 +513,10 @@ func judge(c *Case, res *result) (v verdict) {
 					return fail("body-differs", "body: supplied %s, handler got %s", show(want), show(got))
 				}
 			case "text", "jstring":
+				if p.Type == "jstring" && !utf8.ValidString(string(p.V[0])) {
+					v.may++ // a JSON string is Unicode
+					continue
+				}
 				if g, ok := got.(string); !ok || g != string(p.V[0]) {
 					return fail("body-differs", "text body: supplied %s, handler got %s", quote(string(p.V[0])), show(got))
 				}
